@@ -18,6 +18,21 @@ use std::rc::Rc;
 /// stable class of a panic message: digits blanked except in INV ids
 pub fn panic_class(msg: &str) -> String {
     let head = msg.split(" @ ").next().unwrap_or(msg);
+    // quoted fragments of the input (`...` and '...') would make the class depend on the data
+    let mut cleaned = String::new();
+    let mut quote: Option<char> = None;
+    for c in head.chars() {
+        match quote {
+            Some(q) if c == q => {
+                quote = None;
+                cleaned.push('*');
+            }
+            Some(_) => {}
+            None if c == '`' || c == '\'' => quote = Some(c),
+            None => cleaned.push(c),
+        }
+    }
+    let head = cleaned.as_str();
     let mut out = String::new();
     let mut prev_inv = false;
     let chars: Vec<char> = head.chars().collect();
@@ -224,6 +239,21 @@ fn mcfgs() -> Vec<MCfg> {
             for lang in [None, Some(String::new()), Some("e".into()), Some("eng".into()), Some("ENG".into()), Some("é1\u{10000}".into()), Some("\u{7f}\u{80}\u{ffff}".into()), Some("engl".into())] {
                 v.push(MCfg { narrow: true, meta: Some((title.clone(), time, lang)), ..base(VCodec::H264, Some((ACodec::AacLc, 44100, 1))) });
             }
+        }
+    }
+    // language tags: every string of <= 3 characters over UTF-8 lengths {1, 2, 3, 4} plus a
+    // trailing ASCII letter (so that every byte offset 1..=4 falls inside a multi-byte character
+    // in some tag)
+    let chars = ["a", "\u{e9}", "\u{20ac}", "\u{1f600}"];
+    let mut tags: Vec<String> = vec![String::new()];
+    let mut frontier: Vec<String> = vec![String::new()];
+    for _ in 0..3 {
+        frontier = frontier.iter().flat_map(|s| chars.iter().map(move |c| format!("{s}{c}"))).collect();
+        tags.extend(frontier.iter().cloned());
+    }
+    for tag in tags {
+        for suffix in ["", "z"] {
+            v.push(MCfg { narrow: true, meta: Some((None, None, Some(format!("{tag}{suffix}")))), ..base(VCodec::H264, None) });
         }
     }
     v
